@@ -433,11 +433,11 @@ PROP = Prop(
           "counting-cuckoo streams, by independent Python models after every step; (c) hex form and compiled C headers. disagreements_checked counts the answer "
           "and byte comparisons. Non-trivial = non-empty history (a, b) / grown stream; distinct by hash of (parameters, history)."),
     workloads=[
-        Workload("bloom", wl_bloom, quick=500, thorough=40000),
-        Workload("cms", wl_cms, quick=400, thorough=30000),
-        Workload("stream", wl_stream, quick=300, thorough=20000),
-        Workload("cuckoo", wl_cuckoo, quick=300, thorough=20000),
-        Workload("header", wl_header, quick=12, thorough=300),
+        Workload("bloom", wl_bloom, quick=500, thorough=200000),
+        Workload("cms", wl_cms, quick=400, thorough=150000),
+        Workload("stream", wl_stream, quick=300, thorough=100000),
+        Workload("cuckoo", wl_cuckoo, quick=300, thorough=80000),
+        Workload("header", wl_header, quick=12, thorough=1000),
     ],
     assumptions=["the C reference (cref/ppref.c) was written from the documented layout, not from the library; built with clang -fsanitize=address,undefined -fno-sanitize-recover=all",
                  "geometries whose ceil/round argument is within 1e-9 of a breakpoint are not used (C and Python floating point may legitimately differ there)",
